@@ -132,10 +132,45 @@ def part_framing(chk, drv, n):
                 chk.cov['traces_validated_against_impl'] += 1
 
 
+_REAL_SHAPES = None
+
+
+def real_unmapped_shapes():
+    """(type, payload, time bits) of the packets real recordings carry that no dialect maps -- e.g. the closing marker every recording
+    ends with (type 0xFFFFFFFF, 16 bytes, time 0): an unmapped packet is an unmapped packet wherever it stands"""
+    global _REAL_SHAPES
+    if _REAL_SHAPES is None:
+        shapes = {}
+        try:
+            from replay_unpack.replay_reader import ReplayReader
+            everything = set().union(*history.MAPPED.values())
+            seen_games, picked = set(), []
+            for path in sorted(walk.recordings(), key=os.path.getsize):
+                if walk.game_of(path) not in seen_games:
+                    seen_games.add(walk.game_of(path))
+                    picked.append(path)
+            for path in picked:
+                frames, _ = splitter(ReplayReader(path).get_replay_data().decrypted_data)
+                for t, tm, p in frames[-3:] + frames:          # the closing packets first
+                    if t not in everything and len(p) <= 256:
+                        shapes.setdefault((t, len(p)), (t, bytes(p), tm))
+        except Exception:
+            pass
+        _REAL_SHAPES = list(shapes.values())[:60]
+    return _REAL_SHAPES
+
+
 def insert_noise(rng, packets, dialect, positions=None, count=None):
     out = list(packets)
     count = count if count is not None else rng.randint(1, 8)
+    real = real_unmapped_shapes()
     for _ in range(count):
+        if real and rng.random() < 0.35:
+            t, body, tm = rng.choice(real)
+            if t not in history.MAPPED[dialect]:
+                pos = rng.randint(0, len(out)) if positions is None else positions.pop()
+                out.insert(pos, (t, body, {'kind': 'unmapped', 'time': tm}))
+                continue
         while True:
             t = rng.choice([6, 9, 0x0b, 0x10, 0x17, 0x20, 0x21, 0x25, 0x26, 0x29, 0x30, 0xff, 0xffff, 2 ** 32 - 1, rng.getrandbits(32)])
             if t not in history.MAPPED[dialect]:
